@@ -221,6 +221,26 @@ def readback_case(d, w, h, mname, scheme, part, sub=None, stale=False, via="dire
                     b0.make_thumbnail_from_other(img)
                     tiling = b0.prepare_study_tiling(img)
                     b0.execute_study_tiling(img, tiling)
+                elif via == "pil-flipped":
+                    # a PIL-backed image with a WCS whose parity was flipped (what the tilers do to put an input
+                    # into the parity they need) is tiled as it is AFTER the flip
+                    from PIL import Image as PILImage
+                    from astropy.wcs import WCS
+
+                    wc = WCS(naxis=2)
+                    wc.wcs.ctype = ["RA---TAN", "DEC--TAN"]
+                    wc.wcs.crval = [10.0, 20.0]
+                    wc.wcs.crpix = [(w + 1) / 2.0, (h + 1) / 2.0]
+                    wc.wcs.cdelt = [-1e-3, 1e-3]
+                    img = Image.from_pil(PILImage.fromarray(arr.copy()), wcs=wc, default_format=fmt)
+                    img.flip_parity()
+                    arr = arr[::-1].copy()
+                    tiling = tile_study_image(img, pio)
+                elif via == "pickled":
+                    import pickle
+
+                    tiling = pickle.loads(pickle.dumps(StudyTiling(w, h)))
+                    tiling.tile_image(img, pio)
                 elif via == "builder":
                     b0 = Builder(pio)
                     tiling = b0.prepare_study_tiling(img)
@@ -232,7 +252,14 @@ def readback_case(d, w, h, mname, scheme, part, sub=None, stale=False, via="dire
                 tiling = StudyTiling(w, h)
                 st = tiling.compute_for_subimage(ix, iy, sw, sh)
                 simg = Image.from_array(arr[iy : iy + sh, ix : ix + sw].copy(), default_format=fmt)
-                if via == "builder":
+                if via == "pickled":
+                    # the sub-tiling as a worker process receives it (pickled and restored), also copied
+                    import copy
+                    import pickle
+
+                    st = copy.deepcopy(pickle.loads(pickle.dumps(st)))
+                    st.tile_image(simg, pio)
+                elif via == "builder":
                     Builder(pio).execute_study_tiling(simg, st)
                 else:
                     st.tile_image(simg, pio)
@@ -400,6 +427,13 @@ def run(tier, seed):
     for (w, h) in [(300, 270), (257, 513)]:
         for m in sorted(NARROWER):
             rb.append((w, h, m, "LXY" if m.endswith("npy") else "L/Y/YX", None, False, "reuse"))
+    # tilings that went through pickle (how they reach worker processes); PIL-backed images flipped before tiling
+    for (w, h), sb in subs + [((513, 300), None)]:
+        for m in ("F32/fits", "RGBA/png"):
+            rb.append((w, h, m, "L/Y/YX", sb, False, "pickled"))
+    for (w, h) in [(300, 270), (257, 513), (96, 45)]:
+        for m in ("RGB/png", "RGBA/png"):
+            rb.append((w, h, m, "L/Y/YX", None, False, "pil-flipped"))
     rb = rng_order(rb, seed)
     n = max(1, len(rb) // 6)
     for i in range(0, len(rb), 6):
